@@ -13,9 +13,11 @@ ASSUMPTIONS = c04.ASSUMPTIONS + ["every iteration of a side sampler yields len(s
                                  "change from pass to pass); set_epoch is not called on side samplers"]
 RULE = ("same generator as C04 with 1-4 configs favoured (thorough: up to 6), 40% of the longer side samplers yield "
         "another order on every pass; non-trivial = at least one side pass after a main update or a zero budget with "
-        "configs; distinct by (geometry, budget, config intervals)")
+        "configs; distinct by (geometry, budget, config intervals); plus construction histories: the same config "
+        "and sampler objects handed to 2-3 InterleavedSamplers with different main batch sizes / budgets (training "
+        "sampler, eval-only sampler, ...), each iteration compared with the model of a fresh configuration, and "
+        "config attributes snapshotted before / after every step")
 search_cases = I.search_cases
-shrink = I.shrink
 run_impl = I.run_impl
 coq_applicable = c04.coq_applicable
 coq_case = c04.coq_case
@@ -34,6 +36,13 @@ def gen_cases(rng, tier):
             c = I.gen_bounded(rng, size="large")
             if c["sides"]:
                 out.append(c)
+    # construction histories: the same config objects in several InterleavedSamplers
+    k = 0
+    while k < (130 if tier == "quick" else 1500):
+        c = I.gen_history_case(rng, want=lambda c: bool(c["sides"]))
+        if c["sides"] and c.get("others"):
+            out.append(c)
+            k += 1
     # the real DataLoader with per-dataset collators: 0 workers (thorough: 0 and 2)
     n_loader = 12 if tier == "quick" else 60
     k = 0
@@ -60,9 +69,22 @@ def segments(case, log):
     return segs
 
 
+def side_proj(case, log):
+    """the side passes after every main update, with their batch flags"""
+    return segments(case, log)
+
+
 def oracle(case, obs):
+    """what the streams show first, then: no step of the history changed a config object it was given"""
+    return stream_oracle(case, obs) or ("harness_exception" not in obs and I.config_mutation_violation(obs)) or None
+
+
+def stream_oracle(case, obs):
     if "harness_exception" in obs:
         return "harness exception: " + obs["harness_exception"] + obs.get("tb", "")
+    msg = I.history_violation(case, obs, side_proj, "side passes")
+    if msg:
+        return msg
     e0 = I.start_epoch_of(case)
     if isinstance(e0, str) or obs["result"] != "ok":
         return None
@@ -70,11 +92,11 @@ def oracle(case, obs):
     a, b = segments(case, exp), segments(case, obs["log"])
     if any(v == 0 for v in I.budgets(case).values()):
         if exp != obs["log"]:
-            return f"zero budget: expected exactly one full pass over every config {exp[:8]}.. got {obs['log'][:8]}.."
+            return I.items_tag(exp, obs["log"]) + f"zero budget: expected exactly one full pass over every config {exp[:8]}.. got {obs['log'][:8]}.."
     n = min(len(a), len(b))
     for k in range(n):
         if a[k] != b[k]:
-            return (f"side passes after main update #{k} (counted from the start of this run) differ: "
+            return (I.ITEMS + f"side passes after main update #{k} (counted from the start of this run) differ: "
                     f"expected {a[k][:10]} got {b[k][:10]}")
     # no batch mixes datasets; every index resolves to the dataset/sample it was drawn for
     if isinstance(obs.get("batches"), list):
@@ -107,4 +129,7 @@ def nontrivial_key(case, obs):
         return None
     return (case["N"], case["B"], case["drop_last"], case["D"], tuple(case["budget"]),
             tuple((s["ene"], s["enu"], s["ens"], s["bs"], len(s["idx"]), s.get("shuffle") is not None)
-                  for s in case["sides"]))
+                  for s in case["sides"]), len(case.get("scenario") or []))
+
+
+shrink = I.shrink_keeping(oracle, run_impl)
